@@ -589,6 +589,8 @@ class ModelFittingDataTree(ProblemSingleObjective):
 
                 start = a
                 stop = a + b
-                new_processor.set(key=var.key, value=parameter[start:stop])
+                # Note: A copy is needed, a slice is a view of 'parameter' and the
+                #       model could modify its argument in place
+                new_processor.set(key=var.key, value=parameter[start:stop].copy())
             a += b
         return new_processor
